@@ -34,6 +34,10 @@ def post(ctx, d):
     if not failing:
         failing, cx = ttllib.tcp_sample(ctx, d, PID, gen_sel.gen_reconnect(ctx.seed + 13, 6 if ctx.tier == "quick" else 60, "c20rctcp"))
         cov.update({"reconnect_" + k: v for k, v in cx.items()})
+    # cluster mode: the configuration path must leave exactly one database
+    if not failing:
+        failing, cx = ttllib.clustercfg_sample(ctx, d, PID, gen_sel.gen_clustercfg(ctx.seed, 120 if ctx.tier == "quick" else 1500))
+        cov.update(cx)
     if not failing and ctx.tier == "thorough":
         failing, c2 = ttllib.race_sample(ctx, d, PID, gen_sel.gen_race(ctx.seed + 7, 60), "tcp")
         cov.update(c2)
@@ -55,6 +59,8 @@ def run(ctx):
         r = json.load(open(ctx.replay))
         if r.get("race_line"):
             return ttllib.race_replay(ctx, lib.scratch("c20-"), r)
+        if r.get("cfg_case"):
+            return ttllib.clustercfg_replay(ctx, lib.scratch("c20-"), r)
     rc = memlib.run_family(
         ctx, PID, make_cases, runner=ttllib.memx_runner("handle"),
         rule="database counts 1, 2, 16; every database holds a marker key with its own index so GET reveals the real selection; "
@@ -69,7 +75,11 @@ def run(ctx):
              "every connection and a late one read every key (quick: 40 servers, 2/3/16 databases, every index > 0; thorough: 400 + 60 over TCP); "
              "(f) connection lifecycle: 12-30 rounds per case of a connection that SELECTs n != 0, writes a marker and ends (CLOSE, Handle has "
              "returned), followed by new connections (fresh ids and ids of closed connections, sequential and 2-5 concurrent) that never SELECT "
-             "and read whoami / write at once -- through Manager.Handle under faketime, on the real scheduler with GOMAXPROCS 1 and all, and over TCP",
+             "and read whoami / write at once -- through Manager.Handle under faketime, on the real scheduler with GOMAXPROCS 1 and all, and over TCP; "
+             "(g) cluster configuration path: generated cluster JSON files (no / databases / Databases / DATABASES / dataBases key x values 0,1,2,16,..., "
+             "duplicates, wrong types, other fields varied) through config.ParseConfigJson: accepted => Databases == 1; the node built from it is "
+             "driven through HandleCluster/handleClusterCommits (hook H4 loop-back) by 2-3 connections (B never SELECTs, A SELECTs) and compared with "
+             "the one-database model",
         extra_tb=["connections: mode handle drives server.Manager.Handle over net.Pipe (per-connection state is whatever Handle "
                   "keeps); the accept loop of server.Start is exercised only by the TCP sample (thorough)"],
         extra_cov=dict(db_counts=gen_sel.DBCOUNTS, invalid_args=len(gen_sel.INVALID_ARGS), borderline_args=len(gen_sel.BORDERLINE_ARGS),
